@@ -484,6 +484,8 @@ def rand_call(rng, i):
         elif k == 'anys':
             k = rng.choice(['scalar', 'scalar', 'vec', 'square'])
         a = rarray(rng, k)
+        if a['sh'] == [] and len(kinds) > 1:      # several scalars are compared with each other: keep the cross
+            a = {'sh': [], 'e': [rgauss(rng)]}    # products of numerators and denominators inside 32 bits
         if f in ('floor', 'ceil', 'min', 'max', 'arctan2') and a['sh'] == [] and rng.random() < 0.85:
             a['e'][0] = (a['e'][0][0], Fraction(0))
         if f == 'kronecker' and args and rng.random() < 0.4:
@@ -505,7 +507,7 @@ def py_guard(g, z, w):
     if g == 'strip':
         return mod(z[0]) and mod(z[1])
     if g == 'mod_nt':
-        return mod(z[0]) and mod(z[1]) and (z == (0, 0) or abs(z[0]) >= Fraction(1, 1000) or abs(z[1]) >= Fraction(1, 1000))
+        return mod(z[0]) and mod(z[1]) and (z == (0, 0) or abs(z[0]) >= Fraction(1, 100) or abs(z[1]) >= Fraction(1, 100))
     if g == 'int6':
         return real and x.denominator == 1 and abs(x) <= 6
     if g == 'real_mod':
